@@ -12,7 +12,7 @@ PROPERTY = 'C05'
 LEVEL = 'exploration'
 RULE = ('Hypothesis point sets (2-40 points) from labelled families: clusters, seam clusters, near-polar, all-sky, '
         'half-chunk lattices, shuffled chains with 0.7-1.1 linking-length steps along RA / Dec / diagonals crossing many '
-        'chunks, several filaments that meet; bounded-exhaustive sub-check: every subset (>=2 points) of a 3x3 lattice with pitch '
+        'chunks, several filaments / bending polylines that meet, persistent lattice random walks of 30-80 points (hooked, branched chains labelled in different chunks and merged late); bounded-exhaustive sub-check: every subset (>=2 points) of a 3x3 lattice with pitch '
         '0.9 or 1.1 linking lengths at seam / chunk-corner / polar anchors.  Linking length 10^U(-3.5,1.2) deg, chunksize None or '
         '4-30 x.  Oracle: brute-force union-find on the independent separation matrix evaluated at both ends of a 1e-7 '
         'tolerance band (components at L(1-t) must refine the answer, which must refine components at L(1+t)); then '
@@ -85,19 +85,46 @@ def polylines(draw, L):
 
 
 @st.composite
+def randomwalk(draw, L):
+    """one or two persistent random walks on a lattice of pitch 0.9 L (30-70 steps): hooked / branched chains through many
+    chunks whose parts are labelled in different chunks and merged late"""
+    c = (draw(st.sampled_from([150.0, 0.3, 359.6, 250.0])) + draw(G.unitf), 60 * draw(G.unitf))
+    cosd = max(math.cos(math.radians(c[1])), 1e-3)
+    step = 0.9 * L
+    cells = []
+    for w in range(draw(st.sampled_from([1, 1, 2]))):
+        x, y = (0, 0) if w == 0 else (draw(st.integers(-6, 6)), draw(st.integers(-6, 6)))
+        d = draw(st.sampled_from([(1, 0), (-1, 0), (0, 1), (0, -1)]))
+        cells.append((x, y))
+        for _ in range(draw(st.integers(15, 45))):
+            if draw(st.integers(0, 9)) < 3:
+                d = draw(st.sampled_from([(1, 0), (-1, 0), (0, 1), (0, -1)]))
+            x, y = x + d[0], y + d[1]
+            cells.append((x, y))
+    far = (draw(st.integers(8, 12)), draw(st.integers(8, 12)))      # an isolated point: a group of its own
+    cells = sorted(set(cells))[:80] + [far]
+    cells = draw(st.permutations(cells))
+    pts = [(G._wrap(c[0] + x * step / cosd), G._clipdec(c[1] + y * step)) for x, y in cells]
+    return dict(family='randomwalk', ra1=[p[0] for p in pts], dec1=[p[1] for p in pts])
+
+
+@st.composite
 def case_strategy(draw):
     L = 10 ** (draw(st.integers(-35, 12)) / 10.0) * (1 + 0.1 * draw(G.unitf))
-    which = draw(st.integers(0, 5))
+    which = draw(st.integers(0, 7))
     if which == 0:
         pts = draw(filaments(L))
     elif which in (1, 2):
         pts = draw(polylines(L))
+    elif which in (3, 4):
+        L = max(L, 0.03)        # the default chunk size max(4 L, 0.1) must stay close to 4 L for the walk to cross many chunks
+        pts = draw(randomwalk(L))
     else:
         pts = draw(G.point_sets(L, nmin=2, nmax=40, two_lists=False,
                                 families=['cluster', 'seam', 'seam', 'polar', 'allsky', 'lattice', 'chain', 'chain', 'chain']))
     if pts['family'] == 'allsky':
         L = max(L, 0.5)
-    cs = draw(st.sampled_from([None, None, 4.0, 4.0, 6.0, 10.0, 30.0]))
+    cs = draw(st.sampled_from([None, None, 4.0, 4.0, 6.0, 10.0, 30.0] if pts['family'] not in ('randomwalk', 'polylines') else [4.0, None, 4.0, 5.0, 8.0]))
     eff = max(4.0 * L, 0.1) if cs is None else cs * L
     safe = G.safe_chunksize(pts['ra1'], pts['dec1'], eff)
     return dict(family=pts['family'], ra=pts['ra1'], dec=pts['dec1'], L=L, chunksize=None if (cs is None and safe == eff) else safe)
